@@ -23,10 +23,10 @@ def gen_cases(tier, seed, path):
     parts = []
     if tier == "quick":
         plan = [("exhaustive", ["-len", "3"]), ("random", ["-n", "6000", "-seed", str(seed)]),
-                ("corpus", ["-n", "150", "-seed", str(seed)]), ("big", ["-n", "65536"]), ("boundary", []), ("idents", []), ("lengths", []), ("bodies", []), ("many", [])]
+                ("corpus", ["-n", "150", "-seed", str(seed)]), ("big", ["-n", "65536"]), ("boundary", []), ("idents", []), ("lengths", []), ("bodies", []), ("categories", []), ("many", [])]
     else:
         plan = [("exhaustive", ["-len", "4"]), ("random", ["-n", "200000", "-seed", str(seed)]),
-                ("corpus", ["-n", "0"]), ("big", ["-n", "1048576"]), ("boundary", []), ("idents", []), ("lengths", []), ("bodies", []), ("many", [])]
+                ("corpus", ["-n", "0"]), ("big", ["-n", "1048576"]), ("boundary", []), ("idents", []), ("lengths", []), ("bodies", []), ("categories", []), ("many", [])]
     dist = {}
     with open(path, "w") as f:
         for mode, extra in plan:
